@@ -13,3 +13,4 @@ import SigpyVerif.Props.C07
 import SigpyVerif.Props.C06
 import SigpyVerif.Props.C10
 import SigpyVerif.Props.C14
+import SigpyVerif.Props.C08
